@@ -53,6 +53,13 @@ def gen(args):
              "cell": [] if cellarg is None else [int(v) for v in cell], "sq": [], "sqT": [], "dq": [], "maha": [], "L": [],
              "raised": False, "scale": s, "lmul": []}
         Xf, Yf = X / s, Y / s
+        if kind in ("cell", "aniso", "free") and (t + ny) % 4 == 0 and nx >= 2:
+            # the two point sets as overlapping views of ONE buffer (consecutive frames of a trajectory): still two different sets
+            B = np.ascontiguousarray(np.vstack([X, X[-1:] + 1]) / s)
+            Xf, Yf = B[:-1], B[1:]
+            X, Y = X, np.vstack([X[1:], X[-1:] + 1])
+            c["Y"] = Y.tolist()
+            ny = nx
         if cellarg is not None and (t + nx) % 3 == 0:
             cellarg = [float(v) for v in cellarg]          # the cell as a plain list of numbers
         try:
